@@ -21,7 +21,7 @@ func init() {
 	register(&CheckDef{
 		ID:    "C11",
 		Level: "exploration",
-		Rule: "every ordered mix of <=3 (quick) / <=4 (thorough) tokens, each slot drawn from: named with automatic number (plain / tagged), named with explicit number from {1,2,3,43,97,257,1000,-1 (an alias of the end marker)}, named declared only by %left, named declared twice (%token <t> X and %token X n, n large or small), named introduced by %left and numbered by a later %token line, character literal from {'+','a','{','é','ü'} declared by %token / only by %left / only used in a rule; explicit numbers pairwise distinct and distinct from the literal codes present; in-process: every terminal's code (literal = character code, explicit kept, all distinct, none -1); generated Go and TypeScript (every mix in-process, a fixed stride of them compiled/loaded): `const NAME = n` lines and translate(c) evaluated for every c in [-2, max+2]; " +
+		Rule: "every ordered mix of <=3 (quick) / <=4 (thorough) tokens, each slot drawn from: named with automatic number (plain / tagged), named with explicit number from {1,2,3,43,97,257,1000,-5,-1 (an alias of the end marker)} or written with leading zeros (010, 064, -010: still decimal), named declared only by %left, named declared twice (%token <t> X and %token X n, n large or small), named introduced by %left and numbered by a later %token line, character literal from {'+','a','{','é','ü'} declared by %token / only by %left / only used in a rule; explicit numbers pairwise distinct and distinct from the literal codes present; in-process: every terminal's code (literal = character code, explicit kept, all distinct, none -1); generated Go and TypeScript (every mix in-process, a fixed stride of them compiled/loaded): `const NAME = n` lines and translate(c) evaluated for every c in [-9, max+2], and the compiled go, go -o and ts parsers run on the code sequence of the only rule (accepted), its prefixes, transpositions and one undeclared code at each position (all rejected); " +
 			"non-trivial = mix with at least two tokens; distinct = distinct mixes",
 		Assumptions: []string{
 			"the proviso of the statement: the user's explicit numbers are distinct from each other and from the codes of the literals used",
@@ -56,6 +56,9 @@ func c11Menu() []tokSlot {
 	for _, n := range []int{1, 2, 3, 43, 97, 257, 1000, -1, -5} {
 		m = append(m, tokSlot{Kind: "num", Num: n})
 	}
+	for _, n := range []int{10, 64, -10} {
+		m = append(m, tokSlot{Kind: "numz", Num: n})
+	}
 	for _, c := range []rune{'+', 'a', '{', 'é', 'ü'} {
 		m = append(m, tokSlot{Kind: "lit", Char: c}, tokSlot{Kind: "litprec", Char: c}, tokSlot{Kind: "lituse", Char: c})
 	}
@@ -68,7 +71,7 @@ func (c *c11Case) valid() bool {
 	chars := map[rune]bool{}
 	for i, s := range c.Slots {
 		switch s.Kind {
-		case "num", "twice", "precthennum":
+		case "num", "numz", "twice", "precthennum":
 			n := s.Num
 			if s.Kind == "twice" && s.Num >= 100 {
 				n += i
@@ -110,8 +113,16 @@ func (c *c11Case) spec() (*gram.Spec, map[string]int, []string) {
 		case "tagged":
 			s.Tokens = append(s.Tokens, gram.TokDecl{Name: name, Tag: "v"})
 			want[name] = 0
-		case "num":
-			s.Tokens = append(s.Tokens, gram.TokDecl{Name: name, Num: sl.Num})
+		case "num", "numz":
+			td := gram.TokDecl{Name: name, Num: sl.Num}
+			if sl.Kind == "numz" {
+				// the same number written with leading zeros (still decimal: yacc has no octal token numbers)
+				td.NumText = fmt.Sprintf("%03d", sl.Num)
+				if sl.Num < 0 {
+					td.NumText = fmt.Sprintf("-%03d", -sl.Num)
+				}
+			}
+			s.Tokens = append(s.Tokens, td)
 			want[name] = sl.Num
 			if sl.Num == -1 {
 				// an alias of the end marker (as `%token EOF -1` in examples/e.y): a constant, not a grammar symbol
@@ -191,7 +202,7 @@ func c11Work(w *Worker) {
 					if w.Mine(idx) {
 						w.Begin(idx, c)
 						if c11Eval(w, c, false) {
-							stride := int64(13)
+							stride := int64(19)
 							if w.Thorough() {
 								stride = 23
 							}
